@@ -28,8 +28,7 @@ def run(res, replay=None):
     bad = []
     stats = {"rc_y": {}, "claims_success": 0, "second_run_clean": 0, "input_inconsistent": 0}
     lines = [c02.verdict_model(mexe, "y", c["probs_y"], changed=True) for c in cases]
-    p = subprocess.run([mexe], input=("\n".join(lines) + "\n").encode(), stdout=subprocess.PIPE, timeout=600)
-    mv = p.stdout.decode().split("\n")
+    mv = c02.run_model(mexe, lines)
     vbad = []
     for c, mexit in zip(cases, mv):
         rec = c["recipe"]
